@@ -211,6 +211,7 @@ def replaySteps (st0 : EState) (steps : List Json) :
   let mut calcMis := 0
   -- rollback bookkeeping: lengths at the checkpoint while a rollback is in progress
   let mut rb : Option (Nat × Nat × List DocAction) := none
+  let mut sawRaised := false
   for sj in steps do
     let a := sj.getArr?.toOption.getD #[]
     let kind := ((a[0]?.getD Json.null).getStr?).toOption.getD ""
@@ -218,26 +219,30 @@ def replaySteps (st0 : EState) (steps : List Json) :
     | "doc" =>
       let direct := boolish (a[2]?.getD Json.null)
       let status := ((a[3]?.getD Json.null).getStr?).toOption.getD "ok"
+      if status == "fault-entry" then continue
       match actionOfJson (a[1]?.getD Json.null) with
       | .error e => notes := notes ++ [s!"unparsed doc step: {e}"]
       | .ok act =>
-        -- during a rollback the recorded action must be the next predicted undo action
-        match rb with
-        | some (ls, lu, next :: rest) =>
-          if (actionToJson next).compress != (actionToJson act).compress then notes := notes ++ [s!"rollback replays a different action than undo[cp:] reversed: model {(actionToJson next).compress} engine {(actionToJson act).compress}"]
-          rb := some (ls, lu, rest)
-        | _ => pure ()
-        match stepDoc st act direct with
-        | .ok st' =>
-          if status == "raised" then
-            -- the engine raised somewhere in or after this doc action (possibly later code); keep
-            -- the model's effect: the rollback that follows must cope with either
-            notes := notes ++ ["engine raised in a doc step the model accepts"]
-          st := st'
-        | .error e =>
-          if status != "raised" then notes := notes ++ [s!"model rejects doc step the engine accepted: {e}"]
-          -- `_do_doc_action` appended to stored/direct before applying
+        if status == "raised" then
+          -- the engine raised inside this doc action: `_do_doc_action` had appended it to
+          -- stored/direct; how far the DocActions method got is not observable, so the model applies
+          -- nothing and stops predicting the rollback list for this bundle (the document comparison
+          -- after the rollback still applies)
           st := { st with stored := st.stored ++ [act], direct := st.direct ++ [direct] }
+          sawRaised := true
+        else
+          -- during a rollback the recorded action must be the next predicted undo action
+          match rb with
+          | some (ls, lu, next :: rest) =>
+            if !sawRaised && (actionToJson next).compress != (actionToJson act).compress then
+              notes := notes ++ [s!"rollback replays a different action than undo[cp:] reversed: model {(actionToJson next).compress} engine {(actionToJson act).compress}"]
+            rb := some (ls, lu, rest)
+          | _ => pure ()
+          match stepDoc st act direct with
+          | .ok st' => st := st'
+          | .error e =>
+            notes := notes ++ [s!"model rejects doc step the engine accepted: {e}"]
+            st := { st with stored := st.stored ++ [act], direct := st.direct ++ [direct] }
     | "calc" =>
       let t := ((a[1]?.getD Json.null).getStr?).toOption.getD ""
       let c := ((a[2]?.getD Json.null).getStr?).toOption.getD ""
@@ -259,7 +264,7 @@ def replaySteps (st0 : EState) (steps : List Json) :
     | "rollback-done" =>
       match rb with
       | some (ls, lu, pending) =>
-        if !pending.isEmpty then notes := notes ++ ["rollback stopped before replaying all undo actions"]
+        if !pending.isEmpty && !sawRaised then notes := notes ++ ["rollback stopped before replaying all undo actions"]
         st := { st with stored := st.stored.take ls, direct := st.direct.take ls, undo := st.undo.take lu }
         rb := none
       | none => notes := notes ++ ["rollback-done without rollback"]
